@@ -31,7 +31,7 @@ TRUSTED = ['Coq 8.16.1 kernel', 'vm_compute and PrimFloat primitives (case evalu
 TIME_LIMIT = {'quick': 1200, 'thorough': 5400}
 
 HEADER_Z = '''From Coq Require Import List ZArith.
-From TV Require Import Num.Ops Lin.Tab TT.Chain Model.ActOne Model.Interface Proofs.ActOneP3.
+From TV Require Import Num.Ops Lin.Tab TT.Chain Model.ActOne Model.ActOneX Model.Interface Proofs.ActOneP3.
 Import ListNotations. Open Scope Z_scope.
 Definition c := @mk_core Z.
 Definition flatc (G : core Z) : list Z := concat (concat (dat G)).
@@ -43,7 +43,7 @@ Definition cst ns x := const_cores OZ ns 1 x.
 Definition L := @Leaf Z.
 '''
 HEADER_F = '''From Coq Require Import List ZArith Floats.
-From TV Require Import Num.Ops Num.InstF Lin.Tab TT.Chain Model.ActOne Model.Interface Model.ActOneR.
+From TV Require Import Num.Ops Num.InstF Lin.Tab TT.Chain Model.ActOne Model.ActOneX Model.Interface Model.ActOneR.
 Import ListNotations. Open Scope float_scope.
 Definition c := @mk_core float.
 Definition sh (l : list float) : list (Z * Z) := map F_show l.
@@ -213,7 +213,7 @@ def correspondence(R, ctx):
             elif kind == 'mean_none':
                 coq, impl = f'[mean OZ {y1} None false]', [tn.mean(Y1, norm=False)]
             elif kind == 'mul_scalar':
-                coq, impl = f'[mul_scalar OZ {y1} {y2}]', [tn.mul_scalar(Y1, Y2)]
+                coq, impl = f'[mul_scalar_x OZ {y1} {y2}]', [tn.mul_scalar(Y1, Y2)]
             elif kind in ('add', 'sub', 'mul'):
                 coq, impl = f'showY ({kind} OZ {y1} {y2})', showY_impl(tn, getattr(tn, kind)(Y1, Y2))
             elif kind == 'mulnum':
@@ -310,7 +310,7 @@ def float_stream(R, ctx, tn):
             elif kind == 'mean':
                 term, ab, impl = f'mean OF {y1} None true', f'mean OF (absY {y1}) None true', [tn.mean(Y1)]
             elif kind == 'mul_scalar':
-                term, ab = f'mul_scalar OF {y1} {y2}', f'mul_scalar OF (absY {y1}) (absY {y2})'
+                term, ab = f'mul_scalar_x OF {y1} {y2}', f'mul_scalar_x OF (absY {y1}) (absY {y2})'
                 impl = [tn.mul_scalar(Y1, Y2)]
             elif kind == 'add_get':
                 term = f'get OF (add OF {y1} {y2}) {C.natlist(idx)}'
